@@ -146,6 +146,8 @@ type Stats struct {
 	WallS       float64             `json:"wall_s"`
 	NonFifo     int64               `json:"nonfifo_decisions"`
 	Entities    map[string]int      `json:"entities"`
+	digest      uint64
+	Digests     []string            `json:"digests,omitempty"`
 }
 
 // ViolationReport is a violation with its replay file.
@@ -165,6 +167,7 @@ const setCap = 400000
 
 // noteSim accumulates the measurements of one simulated execution.
 func (st *Stats) noteSim(o *SimOut) {
+	st.digest = splitmix(st.digest ^ o.SchedHash ^ uint64(o.Steps)<<32 ^ uint64(len(o.Stuck))<<20 ^ uint64(o.NonFifo))
 	st.Sims++
 	st.Steps += int64(o.Steps)
 	st.SimSeconds += o.SimTime
@@ -281,6 +284,10 @@ type ReplayFile struct {
 
 var raceMode = os.Getenv("VRACE") != ""
 
+// digestMode: determinism self-test - record one digest per case (decision lists, step counts,
+// census sizes, violation texts) so that repeated runs can be diffed.
+var digestMode = os.Getenv("VDIGEST") != ""
+
 // workerMain runs one worker: generates cases from its seed range until the time budget is used.
 func workerMain() int {
 	prop := os.Getenv("VCHECK")
@@ -319,7 +326,15 @@ func workerMain() int {
 		}
 		st.Evaluations++
 		st.Entities[c.Entity]++
+		st.digest = uint64(seed)
 		vs := ck.Run(c, st)
+		if digestMode {
+			for _, v := range vs {
+				st.digest = splitmix(st.digest ^ hashString(v.Key()+v.Detail))
+			}
+			st.Digests = append(st.Digests, fmt.Sprintf("%d %016x", k, st.digest))
+			vs = nil // the self-test only compares executions
+		}
 		if len(st.Samples) < 3 || (len(st.Samples) < 6 && rng.Intn(50) == 0) {
 			b, _ := json.Marshal(c)
 			st.Samples = append(st.Samples, b)
